@@ -42,7 +42,8 @@ fn worker(args: &Args, mode: &str) -> i32 {
     let out = std::io::stdout();
     if mode == "convert" {
         let list = args.extra.get("paths").cloned().unwrap_or_default();
-        for p in list.split('\n').filter(|s| !s.is_empty()) {
+        // in the reverse of the parent's order: what was converted before a project differs between the two processes
+        for p in list.split('\n').filter(|s| !s.is_empty()).rev() {
             let h = convert_any(p).map(|t| md5ish(&t)).unwrap_or_else(|| "FAILED".into());
             writeln!(out.lock(), "C05 {p}\t{h}").ok();
         }
@@ -99,6 +100,27 @@ pub fn run(args: &Args) -> i32 {
             let path = dir.join(format!("generated{i}.cte"));
             if std::fs::write(&path, text).is_ok() {
                 paths.push(path.to_string_lossy().to_string());
+            }
+        }
+    }
+    // synthetic projects (generated BDL in the XML envelope of a shipped project): they go through the catalogue path of the tools and
+    // define materials, constructions and schedules under the same names with different values
+    if let Some(template) = project_dirs().into_iter().find(|d| d.file_name().map(|n| n == "cubo").unwrap_or(false)) {
+        if let Ok(Some(f)) = hulc::ctehexml::find_ctehexml(&template.to_string_lossy()) {
+            if let Ok(xml) = std::fs::read_to_string(&f) {
+                if let (Some(a), Some(b)) = (xml.find("<EntradaGraficaLIDER>"), xml.find("</EntradaGraficaLIDER>")) {
+                    let mut rng = Rng::new(args.seed ^ 0xC05C);
+                    for i in 0..(if thorough { 16 } else { 5 }) {
+                        let p = crate::bdlgen::gen_proj(&mut rng, &crate::bdlgen::GenOpts { rotated_spaces: i % 3 == 2, polygon_outlines: i % 2 == 1 });
+                        let bdl = crate::bdlgen::print_proj(&p).replace('&', "&amp;").replace('<', "&lt;").replace('>', "&gt;");
+                        let text = format!("{}<EntradaGraficaLIDER>\n{}\n{}", &xml[..a], bdl, &xml[b..]);
+                        let dst = std::path::Path::new(&args.out).join("gen").join(format!("synthetic{i}"));
+                        std::fs::create_dir_all(&dst).ok();
+                        if std::fs::write(dst.join(format!("synthetic{i}.ctehexml")), text).is_ok() {
+                            paths.push(dst.to_string_lossy().to_string());
+                        }
+                    }
+                }
             }
         }
     }
